@@ -185,6 +185,10 @@ def runtime_battery():
     Sb = [("in", "CLK", 1, 0), ("bidir", "S", 4, "Z"), ("out", "Y", 8)]
     for src in ("CLK S_out Y\n0 C 1\n", "S S_out\n1 C\n", "S_out\nC\n", "CLK S S_out Y\nC Z C X\n", "S_out CLK\nC C\n"):
         b.append(Scenario(src, Sb, default_answer=[0, 0], max_rows=20, note="C in the _out column of a bidirectional signal: rejected at bind time, never a panic"))
+    # eighth round: `C` in the column of a declared (virtual) signal
+    Sv2 = [("in", "CLK", 1, 0), ("out", "Q", 8)]
+    for src in ("CLK Q NQ\ndeclare NQ = !Q;\nC 1 C\n", "CLK NQ\ndeclare NQ = 1;\n0 C\n", "NQ CLK\ndeclare NQ = Q + 1;\nC C\n"):
+        b.append(Scenario(src, Sv2, default_answer=[0], max_rows=20, note="C in a declared signal's column: rejected at bind time, never a panic"))
     # seventh round: an expression error raised inside a loop / repeat / nested body, the caller keeps iterating
     Se = [("in", "A", 8, 0), ("out", "Y", 8)]
     for src in ("A Y\nloop(i,4)\n(8 / (i - 1)) X\nend loop\n9 X\n", "A Y\nrepeat(3) (4 % (n - 1)) X\n7 X\n",
